@@ -108,7 +108,12 @@ def one_case(ctx, index, want_model=True):
     rng = ctx.rng('seq%d' % index)
     cache = rng.random() < 0.5
     system = filegen.rand_system(rng)
-    seq, nb, sysw = filegen.random_sequence(rng, system=system, use_block_cache=cache, history=True)
+    # some files lack whole sections (no labels/triggers -> no extension sections; trapezoids/ADC/delays only -> no shapes)
+    u = rng.random()
+    kinds = dict(labels=False) if u < 0.15 else dict(labels=False, arb=False, rf=False) if u < 0.3 else {}
+    seq, nb, sysw = filegen.random_sequence(rng, system=system, use_block_cache=cache, history=True, **kinds)
+    ctx.count('content.' + ('all_kinds' if not kinds else 'no_extensions' if len(kinds) == 1 else 'trap_adc_delay_only'))
+    ctx.count('rf.same_pulse_two_uses', getattr(seq, '_gen_use_pairs', 0))
     sysr = filegen.rand_system(rng, default_prob=0.3)
     if nb == 0:
         ctx.count('skipped.empty')
